@@ -405,7 +405,137 @@ theorem lifted_id (off : Nat) (ref : Seq) (v : Var) (N : List Blk) (hw : InWin o
     unfold lifted at ih' ⊢
     simp only [List.filterMap_cons, hhead, ih']
 
+/-! ### the generic conclusion: the answer's blocks are the lifted blocks up to merging of touching blocks -/
+
+theorem additive_shift {α : Type} (g : Blk → List α) (hg : Additive g) (off : Nat) :
+    Additive (fun y : Blk => g (y.1 - off, y.2 - off)) where
+  empty := by intro b h; exact hg.empty (b.1 - off, b.2 - off) (by simp only; omega)
+  merge := by
+    intro a b h1 h2 h3
+    have := hg.merge (a.1 - off, a.2 - off) (b.1 - off, b.2 - off) (by simp only; omega) (by simp only; omega)
+      (by simp only; omega)
+    simp only at this
+    have e : max (a.2 - off) (b.2 - off) = max a.2 b.2 - off := by omega
+    rw [e] at this
+    exact this
+
+/-- `r` is the EmptyLocation and nothing was lifted, or `r` is a location on strand `st` with ascending, disjoint,
+    non-empty blocks inside `alt` which are the blocks `L` (chromosome coordinates, parent starting at `off`) up to
+    merging of touching blocks: every additive reading of the blocks agrees -/
+def ReadsG (alt : Seq) (st : Strand) (off : Nat) (L : List Blk) (r : Location) : Prop :=
+  (r = .empty ∧ L = []) ∨
+  (r ≠ .empty ∧ locStrand r = .ok st ∧ Asc (locBlocks r) ∧ locBlocks r ≠ [] ∧ (∀ y ∈ locBlocks r, y.2 ≤ alt.length)
+    ∧ ∀ {α : Type} (g : Blk → List α), Additive g →
+        (locBlocks r).flatMap g = L.flatMap (fun y => g (y.1 - off, y.2 - off)))
+
+theorem reparent_readsG (par : Par) (alt : Seq) (M L : List Blk) (st : Strand) (hasc : Asc M) (hne : M ≠ [])
+    (hb : ∀ y ∈ M, par.off ≤ y.1 ∧ y.2 - par.off ≤ alt.length)
+    (hr : ∀ {α : Type} (g : Blk → List α), Additive g →
+        M.flatMap (fun y => g (y.1 - par.off, y.2 - par.off)) = L.flatMap (fun y => g (y.1 - par.off, y.2 - par.off))) :
+    ∃ r, reparent par alt.length (toSingleIfOne ⟨M, st⟩) = .ok r ∧ ReadsG alt st par.off L r := by
+  obtain ⟨r, h1, h2, h3, h4⟩ := reparent_closed par alt.length M st hasc hne hb
+  refine ⟨r, h1, Or.inr ⟨h2, h3, ?_, ?_, ?_, ?_⟩⟩
+  · rw [h4]; exact asc_shift par.off M hasc (fun y hy => (hb y hy).1)
+  · rw [h4]; simpa using hne
+  · intro y hy
+    rw [h4] at hy
+    obtain ⟨z, hz, rfl⟩ := List.mem_map.mp hy
+    exact (hb z hz).2
+  · intro α g hg
+    rw [h4, List.flatMap_map]; exact hr g hg
+
 /-- the core: after the location has been brought to chromosome coordinates (ascending blocks `N`) -/
+theorem liftTail_cleanG (par : Par) (ref : Seq) (v : Var) (st : Strand) (N : List Blk)
+    (hw : InWin par.off ref.length v) (hasc : Asc N) (hN : BlocksOk par.off ref.length v N) (hne : N ≠ []) :
+    ∃ r, liftTail .current par (altSeq1 par.off ref v).length v (toSingleIfOne ⟨N, st⟩) = .ok r
+      ∧ ReadsG (altSeq1 par.off ref v) st par.off (lifted par.off ref v N) r := by
+  have halt : altSeq1 par.off ref v = altOf ref [toEdit par.off v] :=
+    altSeq1_altOf par.off ref v (by have := hw.lo; have := hw.pos; omega) hw.hi
+  have hbounds := lifted_bounds par.off ref v N hN
+  rw [← halt] at hbounds
+  unfold liftTail
+  simp only [locEnd_toSingleIfOne N st hne, bind, Except.bind]
+  by_cases hcond : v.e - v.s = v.alt.length ∨ maxEnd N ≤ v.s
+  · simp only [hcond, if_true]
+    have hid := lifted_id par.off ref v N hw hN hcond
+    rw [hid] at hbounds ⊢
+    exact reparent_readsG par _ N N st hasc hne hbounds (fun g _ => rfl)
+  · simp only [hcond, if_false]
+    rw [liftLoc_closed par.off ref v st N hw hasc hN hne]
+    simp only [Ver.emptyReturn]
+    by_cases hL : lifted par.off ref v N = []
+    · exact ⟨.empty, by simp [hL, pure, Except.pure], Or.inl ⟨rfl, hL⟩⟩
+    · have hLasc := lifted_asc par.off ref v N hasc
+      simp only [hL, if_false]
+      obtain ⟨r, hr1, hr2⟩ := reparent_readsG par (altSeq1 par.off ref v) (combStart (lifted par.off ref v N))
+        (lifted par.off ref v N) st (asc_combStart hLasc) (combStart_ne_nil hLasc hL)
+        (by
+          apply combStart_forall (fun y => par.off ≤ y.1 ∧ y.2 - par.off ≤ (altSeq1 par.off ref v).length)
+          · intro a b ha hb _ _; simp only; omega
+          · exact hbounds)
+        (fun g hg => combStart_additive _ (additive_shift g hg par.off) _ hLasc.valid)
+      refine ⟨r, ?_, hr2⟩
+      have hnn := toSingleIfOne_ne_empty ⟨combStart (lifted par.off ref v N), st⟩
+      generalize toSingleIfOne ⟨combStart (lifted par.off ref v N), st⟩ = nl at hr1 hnn ⊢
+      cases nl with
+      | empty => exact absurd rfl hnn
+      | single b s => exact hr1
+      | compound l => exact hr1
+
+/-- the images of the blocks, in coordinates of the parent's sequence -/
+def imgRel (off : Nat) (ref : Seq) (v : Var) (b : Blk) : Blk :=
+  imageBlock ref [toEdit off v] (b.1 - off, b.2 - off)
+
+/-- reading the lifted blocks = reading the images of the original blocks (empty images read nothing) -/
+theorem lifted_gen {α : Type} (g : Blk → List α) (hg : Additive g) (off : Nat) (ref : Seq) (v : Var) (N : List Blk) :
+    (lifted off ref v N).flatMap (fun y => g (y.1 - off, y.2 - off)) = N.flatMap (fun b => g (imgRel off ref v b)) := by
+  induction N with
+  | nil => rfl
+  | cons b r ih =>
+    simp only [lifted, List.filterMap_cons, List.flatMap_cons] at ih ⊢
+    cases hne : nonEmpty (imageChrom off ref v b) with
+    | none =>
+      simp only
+      rw [ih]
+      have : g (imgRel off ref v b) = [] := by
+        apply hg.empty
+        unfold nonEmpty imageChrom at hne
+        unfold imgRel imageBlock
+        split at hne
+        · exact absurd hne (by simp)
+        · rename_i hlt; simp only at hlt ⊢; omega
+      rw [this]; rfl
+    | some y =>
+      have hy := (nonEmpty_some hne).1
+      simp only [List.flatMap_cons, ih]
+      congr 1
+      rw [hy]
+      simp only [imageChrom, Nat.add_sub_cancel, imgRel, imageBlock]
+
+/-- reading the image of a block is additive over touching blocks -/
+theorem additive_image {α : Type} (g : Blk → List α) (hg : Additive g) (off : Nat) (ref : Seq) (v : Var) :
+    Additive (fun b => g (imgRel off ref v b)) where
+  empty := by
+    intro b h
+    apply hg.empty
+    simp only [imgRel, imageBlock]
+    have := newPos_mono ref [toEdit off v] (b.2 - off) (b.1 - off) (by omega)
+    omega
+  merge := by
+    intro a b h1 h2 h3
+    have hm : max a.2 b.2 = b.2 := by omega
+    have m1 := newPos_mono ref [toEdit off v] (a.1 - off) (a.2 - off) (by omega)
+    have m2 := newPos_mono ref [toEdit off v] (b.1 - off) (b.2 - off) (by omega)
+    have := hg.merge (imgRel off ref v a) (imgRel off ref v b) (by simp only [imgRel, imageBlock]; exact m1)
+      (by simp only [imgRel, imageBlock, h2]) (by simp only [imgRel, imageBlock]; exact m2)
+    simp only [imgRel, imageBlock, hm] at this ⊢
+    have e : max (newPos ref [toEdit off v] (a.2 - off)) (newPos ref [toEdit off v] (b.2 - off))
+        = newPos ref [toEdit off v] (b.2 - off) := by
+      have := newPos_mono ref [toEdit off v] (a.2 - off) (b.2 - off) (by omega); omega
+    rw [e] at this
+    exact this
+
+/-- the old form: what the answer reads on the alternative sequence -/
 theorem liftTail_clean (par : Par) (ref : Seq) (v : Var) (st : Strand) (N : List Blk)
     (hw : InWin par.off ref.length v) (hasc : Asc N) (hN : BlocksOk par.off ref.length v N) (hne : N ≠ []) :
     ∃ r, liftTail .current par (altSeq1 par.off ref v).length v (toSingleIfOne ⟨N, st⟩) = .ok r
@@ -414,40 +544,13 @@ theorem liftTail_clean (par : Par) (ref : Seq) (v : Var) (st : Strand) (N : List
   have halt : altSeq1 par.off ref v = altOf ref [toEdit par.off v] :=
     altSeq1_altOf par.off ref v (by have := hw.lo; have := hw.pos; omega) hw.hi
   have hreads := lifted_reads par.off ref v N hN
-  have hbounds := lifted_bounds par.off ref v N hN
-  rw [← halt] at hreads hbounds
-  unfold liftTail
-  simp only [locEnd_toSingleIfOne N st hne, bind, Except.bind]
-  by_cases hcond : v.e - v.s = v.alt.length ∨ maxEnd N ≤ v.s
-  · simp only [hcond, if_true]
-    have hid := lifted_id par.off ref v N hw hN hcond
-    rw [hid] at hreads hbounds
-    exact reparent_reads par _ N st _ hasc hne hbounds hreads
-  · simp only [hcond, if_false]
-    rw [liftLoc_closed par.off ref v st N hw hasc hN hne]
-    simp only [Ver.emptyReturn]
-    by_cases hL : lifted par.off ref v N = []
-    · refine ⟨.empty, by simp [hL, pure, Except.pure], Or.inl ⟨rfl, ?_⟩⟩
-      rw [← hreads, hL]; rfl
-    · have hLasc := lifted_asc par.off ref v N hasc
-      simp only [hL, if_false]
-      obtain ⟨r, hr1, hr2⟩ := reparent_reads par (altSeq1 par.off ref v) (combStart (lifted par.off ref v N)) st
-        (N.flatMap fun b => image ref [toEdit par.off v] (b.1 - par.off) (b.2 - par.off))
-        (asc_combStart hLasc) (combStart_ne_nil hLasc hL)
-        (by
-          apply combStart_forall (fun y => par.off ≤ y.1 ∧ y.2 - par.off ≤ (altSeq1 par.off ref v).length)
-          · intro a b ha hb _ _; simp only; omega
-          · exact hbounds)
-        (by
-          rw [combStart_additive _ (slice_additive_off _ par.off) _ hLasc.valid]
-          exact hreads)
-      refine ⟨r, ?_, hr2⟩
-      have hnn := toSingleIfOne_ne_empty ⟨combStart (lifted par.off ref v N), st⟩
-      generalize toSingleIfOne ⟨combStart (lifted par.off ref v N), st⟩ = nl at hr1 hnn ⊢
-      cases nl with
-      | empty => exact absurd rfl hnn
-      | single b s => exact hr1
-      | compound l => exact hr1
+  rw [← halt] at hreads
+  obtain ⟨r, h1, h2⟩ := liftTail_cleanG par ref v st N hw hasc hN hne
+  refine ⟨r, h1, ?_⟩
+  rcases h2 with ⟨he, hL⟩ | ⟨hne', hs, ha, hnn, hb, hg⟩
+  · left; refine ⟨he, ?_⟩; rw [← hreads, hL]; rfl
+  · right; refine ⟨hne', hs, ha, hnn, hb, ?_⟩
+    rw [hg (slice (altSeq1 par.off ref v)) (slice_additive _)]; exact hreads
 
 /-! ### `lift_over_location` of one variant, any number of blocks, chromosome and chunk parents -/
 
@@ -499,6 +602,61 @@ theorem lift1_clean_full (par : Par) (ref : Seq) (v : Var) (st : Strand) (bs : L
     simp only [Par.off] at this ⊢
     rw [hadd] at this
     exact this
+
+/-- T3, the blocks: every additive reading of the answer's blocks (positions, slices of any sequence, …) equals the
+    same reading of the IMAGES of the original blocks — the lifted location covers exactly the images of its blocks,
+    touching images merged and empty ones dropped. -/
+theorem lift1_clean_blocks (par : Par) (ref : Seq) (v : Var) (st : Strand) (bs : List Blk)
+    (hw : InWin par.off ref.length v) (hasc : Asc bs) (hbs : BlocksOk par.off ref.length v bs) (hne : bs ≠ []) :
+    ∃ r, lift1 .current par ref v (toSingleIfOne ⟨bs, st⟩) = .ok r
+      ∧ ∀ {α : Type} (g : Blk → List α), Additive g →
+          (locBlocks r).flatMap g = bs.flatMap (fun b => g (imgRel par.off ref v b)) := by
+  rw [lift1_unfold .current par ref v _ (toSingleIfOne_ne_empty _), toChromosome_closed par bs st hasc hne]
+  simp only [bind, Except.bind]
+  have conv : ∀ (N : List Blk) (r : Location),
+      ReadsG (altSeq1 par.off ref v) st par.off (lifted par.off ref v N) r →
+      ∀ {α : Type} (g : Blk → List α), Additive g →
+        (locBlocks r).flatMap g = N.flatMap (fun b => g (imgRel par.off ref v b)) := by
+    intro N r h α g hg
+    rw [← lifted_gen g hg par.off ref v N]
+    rcases h with ⟨he, hL⟩ | ⟨_, _, _, _, _, hgen⟩
+    · rw [he, hL]; rfl
+    · exact hgen g hg
+  cases par with
+  | whole =>
+    obtain ⟨r, h1, h2⟩ := liftTail_cleanG .whole ref v st bs hw hasc hbs hne
+    exact ⟨r, h1, fun g hg => conv bs r h2 g hg⟩
+  | chunk cs =>
+    have hN : BlocksOk cs ref.length v (combStart bs) := by
+      apply combStart_forall (fun b => cs ≤ b.1 ∧ b.1 < b.2 ∧ b.2 - cs ≤ ref.length ∧ Clean v b)
+      · intro a b ha hb h hlt
+        refine ⟨ha.1, by simp only; omega, by simp only; omega, ?_⟩
+        exact clean_merge v hw.pos a b ha.2.2.2 hb.2.2.2 h (Nat.le_of_lt ha.2.1) hlt
+      · exact hbs
+    obtain ⟨r, h1, h2⟩ := liftTail_cleanG (.chunk cs) ref v st (combStart bs) hw (asc_combStart hasc) hN
+      (combStart_ne_nil hasc hne)
+    refine ⟨r, h1, fun g hg => ?_⟩
+    rw [conv (combStart bs) r h2 g hg]
+    exact combStart_additive _ (additive_image g hg cs ref v) bs hasc.valid
+
+theorem blkAsc_additive : Additive Spec.blkAsc where
+  empty := by intro b h; simp [Spec.blkAsc, h]
+  merge := by
+    intro a b h1 h2 h3
+    by_cases hb : b.1 < b.2
+    · exact blkAsc_merge a b h1 hb h2
+    · have e : b.2 = b.1 := by omega
+      have hm : max a.2 b.2 = a.2 := by omega
+      have : Spec.blkAsc b = [] := by simp [Spec.blkAsc, e]
+      rw [this, hm]; simp
+
+/-- T3, positions: the lifted location covers exactly the positions of the images of its blocks (ascending) -/
+theorem lift1_clean_positions (par : Par) (ref : Seq) (v : Var) (st : Strand) (bs : List Blk)
+    (hw : InWin par.off ref.length v) (hasc : Asc bs) (hbs : BlocksOk par.off ref.length v bs) (hne : bs ≠ []) :
+    ∃ r, lift1 .current par ref v (toSingleIfOne ⟨bs, st⟩) = .ok r
+      ∧ Spec.basesPlus (locBlocks r) = bs.flatMap (fun b => Spec.blkAsc (imgRel par.off ref v b)) := by
+  obtain ⟨r, h1, h2⟩ := lift1_clean_blocks par ref v st bs hw hasc hbs hne
+  exact ⟨r, h1, by rw [basesPlus_eq_flatMap]; exact h2 Spec.blkAsc blkAsc_additive⟩
 
 theorem complement_eq : Model.Variants.complement = Spec.Variants.complement := by
   funext c; rfl
